@@ -98,6 +98,11 @@ func cmdCheck(args []string) {
 		json.Unmarshal(data, &kf)
 		known = kf.Findings
 	}
+	for _, k := range known {
+		if k.Status == "known" {
+			knownBase[k.Obligation] = true
+		}
+	}
 	timeout := 20
 	if *tier == "thorough" {
 		timeout = 60
@@ -359,7 +364,8 @@ func cmdCheck(args []string) {
 	finish(*prop, *tier, seed, cfg, frs, obs, violations, append(ifaceUsed, trustedUsed...), t0, len(knownLines))
 }
 
-var knownObl = map[string]bool{}
+var knownObl = map[string]bool{}  // listed findings seen to fail in this run
+var knownBase = map[string]bool{} // every listed finding (excluded from the proof counts)
 
 func finish(prop, tier string, seed int, cfg *propConfig, frs []*FuncResult, obs []*Oblig, violations []*replayFile, assumedContracts []string, t0 time.Time, nKnown int) {
 	// evidence
@@ -369,7 +375,7 @@ func finish(prop, tier string, seed int, cfg *propConfig, frs []*FuncResult, obs
 	var samples []interface{}
 	nObl := 0
 	for _, o := range obs {
-		if knownObl[baseName(o.Name)] {
+		if knownBase[baseName(o.Name)] {
 			continue
 		}
 		nObl++
